@@ -12,6 +12,7 @@ from ..ref import deflate_peer
 from . import c04
 
 LEVEL = 'exploration'
+TECHNIQUE = "runtime monitoring of the client's writes: strict independent frame decoder and reference zlib peer on every API call"
 BUDGET_S = {'quick': 30, 'thorough': 200}
 REQUIRED = {'all': ['oracle.accepted_calls_decoded', 'oracle.rejected_calls_checked', 'oracle.rsv1_frames_inflated',
                     'oracle.mask_key_sweep_calls']}
